@@ -145,9 +145,11 @@ class CoqCases:
                 f"Definition cases : list ({self.ctype}) := [\n  {body}\n].\n"
                 f"Eval vm_compute in (bad_indices ({self.check}) cases).\n{extra}")
 
-    def run(self, timeout: int = 900):
+    def run(self, timeout: int = 1800):
         """returns (bad, errors): bad = sorted list of failing global indices; errors = list of
-        (shard, output) for shards that did not evaluate (a broken model counts as a broken tie)."""
+        (shard, output) for shards that did not evaluate (a broken model counts as a broken tie).
+        A shard that only TIMES OUT (a loaded machine is not a property of the code) is split into quarters and
+        evaluated again with three times the budget before it is reported."""
         if not self.cases:
             return [], []
         jobs = []
@@ -155,18 +157,30 @@ class CoqCases:
             f = self.scratch.path(f"{self.name}_{s:04d}.v")
             with open(f, "w") as fh:
                 fh.write(self._file_text(self.cases[lo:lo + self.shard]))
-            jobs.append((lo, f))
+            jobs.append((lo, min(self.shard, len(self.cases) - lo), f))
         bad, errors = [], []
-        with cf.ThreadPoolExecutor(max_workers=NCPU) as ex:
-            futs = {ex.submit(run_coqc, f, timeout): (lo, f) for lo, f in jobs}
-            for fut in cf.as_completed(futs):
-                lo, f = futs[fut]
-                rc, out = fut.result()
-                idx = parse_nat_list(out) if rc == 0 else None
-                if idx is None:
-                    errors.append((os.path.basename(f), out[-2000:]))
-                else:
-                    bad.extend(lo + i for i in idx)
+        for attempt in (0, 1):
+            retry = []
+            with cf.ThreadPoolExecutor(max_workers=NCPU) as ex:
+                futs = {ex.submit(run_coqc, f, timeout * (3 if attempt else 1)): (lo, n, f) for lo, n, f in jobs}
+                for fut in cf.as_completed(futs):
+                    lo, n, f = futs[fut]
+                    rc, out = fut.result()
+                    idx = parse_nat_list(out) if rc == 0 else None
+                    if idx is not None:
+                        bad.extend(lo + i for i in idx)
+                    elif rc == 124 and attempt == 0 and n > 1:
+                        q = max(1, (n + 3) // 4)
+                        for k, sub in enumerate(range(lo, lo + n, q)):
+                            g = f[:-2] + f"_r{k}.v"
+                            with open(g, "w") as fh:
+                                fh.write(self._file_text(self.cases[sub:min(sub + q, lo + n)]))
+                            retry.append((sub, min(q, lo + n - sub), g))
+                    else:
+                        errors.append((os.path.basename(f), out[-2000:]))
+            jobs = retry
+            if not jobs:
+                break
         return sorted(bad), errors
 
     def explain(self, i: int, expr: str, timeout: int = 300) -> str:
